@@ -694,6 +694,9 @@ func ParseSInterP(buf string) frt.Tuple2[string, []string] {
 			vend := i
 			vars = append(vars, buf[vbeg:vend])
 			res.WriteString("%s")
+		} else if c == '%' {
+			// the result is a fmt format string.
+			res.WriteString("%%")
 		} else {
 			res.WriteByte(c)
 		}
